@@ -229,12 +229,39 @@ FIXED = [
         T('fin', v0)
     return (v0,)
 ''', 'inputs': [A, B], 'fnames': ['f']}),
+ ('C06', 'for-target-definitions-killed-on-loop-exit', 'ef8c4be',
+  "after a possibly zero-trip for loop, the read of the target variable lacked the definition made before the loop (header killed target definitions on the exit edge)",
+  {'src': PREAMBLE + '''def f(a, b, c, xs, o, d):
+    v0 = 0
+    v2 = c
+    for v0 in xs:
+        pass
+    for v2, i5 in enumerate(xs):
+        pass
+    return (v2, v0)
+''', 'inputs': [E, A], 'fnames': ['f']}),
  ('C04', 'nested-conditional-expression-native', '97e2f5a',
   "a conditional expression nested in the test or a branch of another one stayed native (visit_IfExp did not visit children)",
   'C04MATRIX'),
 ]
 
 OPEN = [
+ {'property': 'C06', 'key': 'definitions-do-not-cross-function-boundaries', 'status': 'open',
+  'what': "definitions do not flow between a function and the functions nested in it: a read of an enclosing variable inside a nested "
+          "function has an empty DEFINITIONS annotation, and a rebinding made by a nested function through nonlocal is not among the "
+          "definitions of later reads in the enclosing function. Each function is analysed by its own Analyzer, although the "
+          "TreeAnnotator docstring promises to account for closures. Not repaired: a sound repair has to propagate every definition of the symbol in "
+          "the enclosing function (the nested function may be called at any later point), which changes what the directives converter "
+          "sees as 'defined' names and is more than a small local patch.",
+  'witness': {'src': PREAMBLE + '''def f(a, b, c, xs, o, d):
+    v0 = a + 1
+    def fn1(p1):
+        nonlocal v0
+        v0 = v0 + p1 + b
+        return v0
+    v1 = fn1(2)
+    return (v1, v0)
+''', 'inputs': [A], 'fnames': ['f']}},
  {'property': 'C18', 'key': 'anf-hoisting-not-in-evaluation-order', 'status': 'open',
   'what': "ANF names the sub-expressions of all children before the children themselves (generic_visit, then _ensure_fields_in_anf), so "
           "sub-expressions of a later sibling are computed before an earlier sibling: F(F(x), F(y, F(z))) computes F(z) before F(x); dict "
